@@ -1,6 +1,7 @@
 """C12 — string pool: class table agreement, conservation by construction, class-checked release, ownership of release."""
 import struct
 
+import re
 from ..guards import cmp_facts, ne, sh
 from ..mir import parent_fn
 from ..panics import label_names
@@ -282,14 +283,15 @@ def r3_class_checked_release(ctx):
     asr = ctx.need(P + "PoolSet::alloc_str")
     ctx.touch(asr)
     al = asr.calls_to(P + "PoolSet::alloc")
-    if al and "len(s)" in sh(ne(asr.deep(al[0].args[1]))).replace(" ", ""):
+    from ..linear import lin, show as lshow
+    if al and lin(ne(asr.deep(al[0].args[1]))) == ({"len(s)": 1}, 0):
         ctx.ok("alloc_str|size-is-len", asr.where(), "alloc(s.len())")
     else:
-        ctx.bad("alloc_str|size-is-len", asr.where(), "alloc_str requests %s bytes instead of s.len()" % (sh(ne(asr.deep(al[0].args[1]))) if al else "?"))
+        ctx.bad("alloc_str|size-is-len", asr.where(), "alloc_str requests `%s` bytes from the pool while the string records s.len() as its capacity: at a class boundary the slot comes from one class and is released towards another (the release is dropped and the slot is lost)" % (lshow(ne(asr.deep(al[0].args[1]))) if al else "?"))
     rtp = ctx.need("runtime::Value::return_to_pool")
     ctx.touch(rtp)
     dl = rtp.calls_to(P + "PoolSet::dealloc")
-    if dl and "capacity" in sh(ne(rtp.deep(dl[0].args[2]))):
+    if dl and lin(ne(rtp.deep(dl[0].args[2]))) in (({"capacity(s)": 1}, 0), ({"capacity(self@Str.0@Owned.0)": 1}, 0)) or (dl and re.match(r"^capacity\([^()]*\)$", sh(ne(rtp.deep(dl[0].args[2]))))):
         ok = any(si["kind"] == "call" and (si["callee"] or "").endswith("PoolSet::contains") and 0 not in al for S, al in rtp.constraints(dl[0].block) for si in [rtp.switch_info(S)])
         if ok:
             ctx.ok("return_to_pool|checked", rtp.where(), "dealloc(ptr, capacity) under pool.contains(ptr)")
@@ -347,7 +349,16 @@ def r4_who_releases(ctx):
         ctx.bad("contains|half-open|%s" % [x[0] for x in lt], sbc.where(), "SlotBlock::contains is not `offset < slot_size * slot_count` (%s): the one-past-the-end address would count as pooled" % lt)
 
 
-RULES = [("C12-R1", r1_class_table), ("C12-R1b", r1b_backing_sizes), ("C12-R2", r2_conservation), ("C12-R3", r3_class_checked_release), ("C12-R4", r4_who_releases)]
+def r5_slots_are_not_aliased_across_calls(ctx):
+    """A slot is exclusively owned until it is returned - also at the level of the runtime: a string argument that merely
+    borrows the caller's pool slot is given a slot of its own when it is bound to a parameter (under pool.contains), or the
+    callee can overwrite the variable, the slot is handed out again, and the parameter reads another string (shared with
+    C02-R1 / C05-R5)."""
+    from .c02 import param_binding_rule
+    param_binding_rule(ctx)
+
+
+RULES = [("C12-R1", r1_class_table), ("C12-R1b", r1b_backing_sizes), ("C12-R2", r2_conservation), ("C12-R3", r3_class_checked_release), ("C12-R4", r4_who_releases), ("C12-R5", r5_slots_are_not_aliased_across_calls)]
 
 EXPLANATION = (
     "R1: the evaluated class table (SLOT_SIZES, SLOT_COUNTS, CLASS_COUNT) is checked for shape and every integer constant of "
@@ -363,6 +374,9 @@ EXPLANATION = (
 )
 EXPLANATION += (
     " Added after a seeded change was missed: R3 PoolSet::alloc reaches Pool::alloc exactly when the class exists and PoolSet::dealloc reaches Pool::dealloc exactly when the class exists and owns the pointer - no further test on the request on either side (what is taken under a condition is given back under the same condition)."
+)
+EXPLANATION += (
+    " R3 compares the size alloc_str asks of the pool and the size return_to_pool releases as values (linear normal form): both are the string's length / capacity, exactly. R5 (= C02-R1/C05-R5): a borrowed string argument gets a slot of its own under pool.contains when it is bound to a parameter."
 )
 ASSUMPTIONS = ["strings stored in slots are never grown in place (capacity stays equal to the allocated length)"]
 TRUSTED = ["rustc const-eval of the tables", "nsx exporter", "nsverif path enumeration"]
